@@ -225,6 +225,10 @@ Theorem C06_history_prop_ok : forall p h,
   prop_history_ok p (decide_history (new_session p) h) = true.
 Proof. exact history_prop_ok. Qed.
 
+Theorem C06_trace_prop_ok : forall p idem cl0 plan outs tr r,
+  fiber p idem cl0 plan outs = (tr, r) -> prop_trace_ok p idem (List.length plan) tr = true.
+Proof. exact fiber_trace_prop_ok. Qed.
+
 (* ---- non-vacuity ------------------------------------------------------------ *)
 Definition ex_unavail := EDbError (DbUnavailable 2 1).
 Definition ex_rt_ok := EDbError (DbReadTimeout 2 2 false).
@@ -315,3 +319,4 @@ Print Assumptions C06_downgrade_decision.
 Print Assumptions C06_ignore_only_idempotent.
 Print Assumptions C06_decide_prop_ok.
 Print Assumptions C06_history_prop_ok.
+Print Assumptions C06_trace_prop_ok.
